@@ -16,6 +16,7 @@ CONSTANTS Kinds,        \* subset of {"choice", "plain", "confirm"}
           Muts,         \* what the caller did to its choice list between building the question and asking it:
                         \*   0 nothing, 1 appended the last choice, 2 replaced the first choice, 3 removed a trailing one
           RouteIds,     \* which of the routes by which the I/O is prepared (see RouteOf)
+          Reconfs,      \* what the caller does to the object before asking it again: 0 nothing, 2 set_multi_select(not multi)
           Rounds        \* 1: one dialogue;  2: the same question OBJECT is asked a second time on the rest of the input
 
 VARIABLES idx,          \* the indices the initial state was built from (constant along a behaviour)
@@ -28,7 +29,7 @@ ChoicePool == << <<"a">>, <<"1">>, <<"x", " ", "y">>, <<"A">>, <<"b">>, <<"a", "
 AnswerPool == << <<>>, <<"0">>, <<"1">>, <<"a">>, <<"z", "z">>, <<"-", "1">>, <<"9">>, <<"a", ",", "b">>,
                  <<"0", ",", " ", "1">>, <<"x", " ", "y">>, <<" ", "a", "\t">>, <<"A">>,
                  <<"<", "/", "i", "n", "f", "o", ">">>, <<"+", "1">>, <<"0", "1">>, <<"b", ",", "x", " ", "y">>,
-                 <<"a", ",", ",", "b">>, <<"a", ".", "b">> >>
+                 <<"a", ",", ",", "b">>, <<"a", ".", "b">>, <<"a", CR>> >>
 \* defaults of a choice question are index texts
 DefaultPool == << <<"0">>, <<"1">>, <<"0", ",", "1">>, <<" ", "0", " ", ",", " ", "1", " ">> >>
 DefOK(d, mu, n) == \/ d = 0 \/ d = 1
@@ -36,7 +37,7 @@ DefOK(d, mu, n) == \/ d = 0 \/ d = 1
                    \/ (d \in {3, 4} /\ mu /\ n >= 2)
 
 \* kind "plain": a Question whose validator accepts the members of `choices`; its default is a value
-PlainDefaults == << <<"a">>, <<"z", "z">> >>
+PlainDefaults == << <<"a">>, <<"z", "z">>, <<>> >>          \* the last one: default "" (falsy, but a default)
 \* confirmations
 Patterns == << [ci |-> TRUE,  alts |-> << <<"y">> >>, whole |-> FALSE, anch |-> TRUE],                          \* (?i)^y   (the default)
                [ci |-> TRUE,  alts |-> << <<"j">>, <<"y">> >>, whole |-> FALSE, anch |-> TRUE],                 \* (?i)^(j|y)
@@ -47,14 +48,14 @@ Patterns == << [ci |-> TRUE,  alts |-> << <<"y">> >>, whole |-> FALSE, anch |-> 
 ConfirmAnswers == << <<>>, <<"y">>, <<"Y">>, <<"y", "e", "s">>, <<"n">>, <<"n", "o">>, <<"j">>, <<" ", "y", " ">>,
                      <<"n", "y">>, <<"o", "u", "i">>, <<"y", "e">>, <<"Y", "E", "S">>, <<" ">>, <<"y", "e", "s", "s">>,
                      <<"n", "a", "y">>, <<"o", "h", " ", "y", "e", "s">>, <<"n", "o", "t", " ", "o", "k">>, <<"O", "K">>,
-                     <<"0", "1">>, <<"1", "0">>, <<"y", "s">> >>
+                     <<"0", "1">>, <<"1", "0">>, <<"y", "s">>, <<"y", CR>>, <<CR>> >>
 NoPat == Patterns[1]
 
 Q(kind, cs, bs, mu, hasDef, def, defB, att, inter, val, pat) ==
   [kind |-> kind, choices |-> cs, built |-> bs, multi |-> mu, hasDef |-> hasDef, def |-> def, defB |-> defB, maxAtt |-> att,
    interactive |-> inter, validator |-> val, pat |-> pat]
 
-First0 == [out |-> NoOut, r |-> 0, n |-> 0, e |-> 0, w |-> 0]
+First0 == [out |-> NoOut, r |-> 0, n |-> 0, e |-> 0, w |-> 0, rc |-> 0]
 \* the list the question was built with, given the list at the time of asking and what the caller did in between
 Gone == <<"g", "o", "n", "e">>
 BuiltOf(cs, mt) == CASE mt = 0 -> cs
@@ -76,7 +77,7 @@ InitChoice ==
 InitPlain ==
   /\ "plain" \in Kinds
   /\ \E n \in 1..MaxChoices : \E ci \in [1..n -> 1..NPool] : \E m \in 0..MaxLines : \E si \in [1..m -> 1..NAnswers] :
-     \E att \in Attempts, val \in BOOLEAN, d \in 0..2, inter \in Inter :
+     \E att \in Attempts, val \in BOOLEAN, d \in 0..3, inter \in Inter :
        /\ (~inter => (m <= 1 /\ att = 0)) /\ (~val => (att = 0 /\ n = 1 /\ m <= 1))
        /\ Start(Q("plain", [k \in 1..n |-> ChoicePool[ci[k]]], [k \in 1..n |-> ChoicePool[ci[k]]], FALSE, d > 0, IF d > 0 THEN PlainDefaults[d] ELSE <<>>,
                   FALSE, att, inter, val, NoPat),
@@ -113,8 +114,11 @@ Init == (InitChoice \/ InitPlain \/ InitConfirm)
                                      /\ route = r /\ EnvScript(r) = script /\ EnvInter(r) = q.interactive
 \* the same question object is asked again where the first dialogue stopped reading
 Again == /\ pc = "done" /\ round < Rounds /\ round' = round + 1
-         /\ first' = [out |-> out, r |-> obs.reads, n |-> pos - start, e |-> obs.errs, w |-> obs.prompts]
-         /\ ReAsk(script, pos) /\ UNCHANGED <<idx, route>>
+         /\ \E rc \in Reconfs :
+              /\ (rc = 2 => q.kind = "choice")
+              /\ first' = [out |-> out, r |-> obs.reads, n |-> pos - start, e |-> obs.errs, w |-> obs.prompts, rc |-> rc]
+              /\ IF rc = 2 THEN ReAskAs([q EXCEPT !.multi = ~q.multi], script, pos) ELSE ReAsk(script, pos)
+         /\ UNCHANGED <<idx, route>>
 MNext == (Next /\ UNCHANGED <<idx, route, round, first>>) \/ Again
 CNext == CoreNext /\ UNCHANGED <<idx, route, round, first>>
 Spec == Init /\ [][MNext]_mvars /\ WF_mvars(MNext)
@@ -157,7 +161,7 @@ ASSUME PrintT(ToJson([pools |-> TRUE, choices |-> FlatAll(ChoicePool), answers |
 OutJ(o) == [ok |-> o.kind, x |-> o.cls, t |-> o.val.t, vs |-> Flat(o.val.s), vl |-> FlatAll(o.val.l), vb |-> o.val.b]
 RouteJ == [k \in 1..Len(route) |-> [op |-> route[k].op, ls |-> FlatAll(route[k].ls), b |-> route[k].b]]
 Emit == Last => PrintT(ToJson([kind |-> q.kind, b |-> FlatAll(q.built), rounds |-> Rounds, route |-> RouteJ,
-                              f |-> [o |-> OutJ(first.out), r |-> first.r, n |-> first.n, e |-> first.e, w |-> first.w],
+                              f |-> [o |-> OutJ(first.out), r |-> first.r, n |-> first.n, e |-> first.e, w |-> first.w, rc |-> first.rc],
                               c |-> idx.c, s |-> idx.s, d |-> idx.d, p |-> idx.p, m |-> q.multi,
                               a |-> q.maxAtt, i |-> q.interactive, v |-> q.validator, db |-> q.defB,
                               ok |-> out.kind, x |-> out.cls, t |-> out.val.t, vs |-> Flat(out.val.s),
